@@ -4,28 +4,11 @@
 //!   tfh run [--stats FILE]  < ops                      -> one reply line per op line on stdout;
 //!                                                         a failed property oracle is appended as "\tORACLE-FAIL:<what>"
 mod util;
-mod c01;
+mod registry;
+use registry::*;
 
 use std::io::{BufRead, Write};
 use util::*;
-
-pub type GenFn = fn(&mut Rng, bool, &mut Vec<String>);
-pub type RunFn = fn(&str, &[Arg], &mut Stats) -> Option<Out>;
-
-fn generators(prop: &str) -> Vec<GenFn> {
-    match prop {
-        "C01" => vec![c01::gen],
-        _ => vec![],
-    }
-}
-
-fn runner(family: &str) -> Option<RunFn> {
-    match family {
-        "bfe" => Some(c01::run_bfe),
-        "xfe" => Some(c01::run_xfe),
-        _ => None,
-    }
-}
 
 fn run_line(line: &str, stats: &mut Stats) -> String {
     let toks: Vec<&str> = line.split_whitespace().collect();
